@@ -241,8 +241,22 @@ def r2_code_tables(ctx):
     ctx.ob(cr.where, "reference-consuming CIGAR operations are exactly M, D, N, =, X", ok, u(cons[0].value) if cons else "", key="C16-R2|ref-consuming")
     txt = u(cr.node)
     rets = [n for n in body_walk(cr.node) if isinstance(n, ast.Return)]
-    ok = len(rets) == 1 and sym.same(rets[0].value, "np.sum(mask * lengths, axis=-1).astype(int)") and "mask = mask | (symbol == consuming_symbol)" in txt \
-        and "mask = symbol == consuming[0]" in txt and "for consuming_symbol in consuming[1:]" in txt
+    loop_form = "mask = mask | (symbol == consuming_symbol)" in txt and "mask = symbol == consuming[0]" in txt and "for consuming_symbol in consuming[1:]" in txt
+    # the same OR over ALL consuming symbols written as a fold: reduce(or_, (symbol == c for c in consuming)), np.logical_or.reduce([...]), np.any([...], axis=0)
+    fold_form = False
+    for a in [n for n in body_walk(cr.node) if isinstance(n, ast.Assign) and u(n.targets[0]) == "mask" and isinstance(n.value, ast.Call)]:
+        fn, args = u(a.value.func), a.value.args
+        gen = None
+        if fn in ("reduce", "functools.reduce") and len(args) == 2 and u(args[0]) in ("or_", "operator.or_", "np.logical_or", "np.bitwise_or", "lambda a, b: a | b"):
+            gen = args[1]
+        elif fn in ("np.logical_or.reduce", "np.bitwise_or.reduce") and len(args) == 1:
+            gen = args[0]
+        elif fn == "np.any" and len(args) == 1 and [k for k in a.value.keywords if k.arg == "axis" and u(k.value) == "0"]:
+            gen = args[0]
+        if isinstance(gen, (ast.GeneratorExp, ast.ListComp)) and len(gen.generators) == 1 and not gen.generators[0].ifs and u(gen.generators[0].iter) == "consuming" \
+                and isinstance(gen.generators[0].target, ast.Name) and sym.same(gen.elt, f"symbol == {gen.generators[0].target.id}"):
+            fold_form = True
+    ok = len(rets) == 1 and sym.same(rets[0].value, "np.sum(mask * lengths, axis=-1).astype(int)") and (loop_form or fold_form)
     ctx.ob(cr.where, "reference length = sum of the lengths of the reference-consuming operations of each record", ok, "", key="C16-R2|ref-length")
     # strand bit at both sites
     al = ix.func("bionumpy.alignments", "alignment_to_interval")
